@@ -678,4 +678,51 @@ pub mod vx_export {
             }
         }
     }
+
+    /// C14 (BOUNDED): one 4-epoch history is run under every combination of {sequential, parallel insertion} x {no cache, cache} x
+    /// {one long-lived instance, instance dropped and re-created over the same storage before every call} (x the runtime the caller
+    /// drives it with); every variant must publish the SAME epoch hashes and verify every label to the same (value, version, epoch).
+    pub async fn c14_variants<TC: Configuration>() -> Result<Vec<String>, AkdError> {
+        let kv = |k: &str, v: &str| (AkdLabel::from(k), AkdValue::from(v));
+        let batches: Vec<Vec<(AkdLabel, AkdValue)>> = vec![
+            (0..12).map(|i| (AkdLabel(format!("u{i}").into_bytes()), AkdValue(format!("a{i}").into_bytes()))).collect(),
+            vec![kv("u1", "b1"), kv("u5", "b5"), kv("x", "x1")],
+            (0..12).rev().map(|i| (AkdLabel(format!("u{i}").into_bytes()), AkdValue(format!("c{i}").into_bytes()))).collect(),
+            vec![kv("y", "y1")],
+        ];
+        let mut reference: Option<(Vec<(u64, crate::Digest)>, Vec<(u64, u64, Vec<u8>)>)> = None;
+        let mut bad = vec![];
+        for par in [false, true] { for cache in [false, true] { for restart in [false, true] {
+            let db = AsyncInMemoryDatabase::new();
+            let mk = || async {
+                let st = if cache { StorageManager::new(db.clone(), None, None, None) } else { StorageManager::new_no_cache(db.clone()) };
+                Directory::<TC, _, _>::new(st, HardCodedAkdVRF {}, if par { AzksParallelismConfig::default() } else { AzksParallelismConfig::disabled() }).await
+            };
+            let mut dir = mk().await?;
+            let mut hashes = vec![];
+            for b in batches.iter() {
+                if restart { dir = mk().await?; }
+                let eh = dir.publish(b.clone()).await?;
+                hashes.push((eh.epoch(), eh.hash()));
+            }
+            if restart { dir = mk().await?; }
+            let pk = dir.get_public_key().await?;
+            let mut answers = vec![];
+            for name in ["u0", "u1", "u5", "u11", "x", "y"] {
+                let (proof, eh) = dir.lookup(AkdLabel::from(name)).await?;
+                match lookup_verify::<TC>(pk.as_bytes(), eh.hash(), eh.epoch(), AkdLabel::from(name), proof) {
+                    Ok(r) => answers.push((r.version, r.epoch, r.value.0)),
+                    Err(e) => bad.push(format!("variant (parallel={par}, cache={cache}, restart={restart}): lookup({name}) does not verify: {e}")),
+                }
+            }
+            match &reference {
+                None => reference = Some((hashes, answers)),
+                Some((h0, a0)) => {
+                    if *h0 != hashes { bad.push(format!("variant (parallel={par}, cache={cache}, restart={restart}) published different epoch hashes than the sequential / uncached / long-lived run")); }
+                    if *a0 != answers { bad.push(format!("variant (parallel={par}, cache={cache}, restart={restart}) verifies labels to different results")); }
+                }
+            }
+        } } }
+        Ok(bad)
+    }
 }
